@@ -184,8 +184,8 @@ type seqStats struct {
 	keys, legacy, multiRawInvoke, nobodyCompatible, rootQuery   bool
 	excluded                                                    int
 	// the classes added with the odd strings / derived paths / sizes
-	oddString, emptyString, twins, twinsInList, oddHit     bool
-	bigList, repeatInList, bigNotif, longPath, crowd, many bool
+	oddString, emptyString, twins, twinsInList, oddHit                bool
+	bigList, repeatInList, bigNotif, hugeNotif, longPath, crowd, many bool
 	// container shapes (atomic.go)
 	atoms atomStats
 }
@@ -228,6 +228,7 @@ func (s seqStats) labels() []string {
 	add(s.bigList, "list-with-20plus-paths")
 	add(s.repeatInList, "list-repeats-a-path")
 	add(s.bigNotif, "notification-with-5plus-entries")
+	add(s.hugeNotif, "notification-with-65plus-entries")
 	add(s.longPath, "path-with-6plus-elements")
 	add(s.crowd, "path-registered-by-3plus-clients")
 	add(s.many, "50plus-live-registrations")
@@ -434,6 +435,9 @@ func runSeq(sc *Scenario, open map[string]bool) (st seqStats, err error) {
 		}
 		if len(entries) >= 5 {
 			st.bigNotif = true
+		}
+		if len(entries) >= bigEntries {
+			st.hugeNotif = true
 		}
 		for _, p := range entries {
 			if anyOdd(p) {
